@@ -551,7 +551,12 @@ func (fx *FnExec) val(st *State, v ssa.Value) *Term {
 	case *ssa.Const:
 		return fx.constVal(x)
 	case *ssa.Function:
-		return IntLit(int64(fx.e.funcID(x)))
+		r := IntLit(int64(fx.e.funcID(x)))
+		if key := "fnmeaning " + x.String(); !fx.c.trusted[key] {
+			fx.c.trusted[key] = true
+			fx.closureMeaning(st, x, r, 0)
+		}
+		return r
 	case *ssa.Global:
 		// address of a package-level variable: a fixed pcell / object reference
 		return fx.globalRef(x)
@@ -1961,6 +1966,22 @@ func (fx *FnExec) strConcat(st *State, a, b *Term) *Term {
 			arr = ConsArr(IntLit(int64(sa[i])), arr)
 		}
 		return MkStr(arr, Add(StrLen(b), IntLit(int64(len(sa)))))
+	}
+	// an operand of known short length (e.g. s[:1]): exact as well
+	if n := StrLen(b); n.lit != nil && n.lit.IsInt64() && n.lit.Int64() >= 0 && n.lit.Int64() <= 8 {
+		arr := StrArr(a)
+		la := StrLen(a)
+		for i := int64(0); i < n.lit.Int64(); i++ {
+			arr = Store(arr, Add(la, IntLit(i)), StrAt(b, IntLit(i)))
+		}
+		return MkStr(arr, Add(la, n))
+	}
+	if n := StrLen(a); n.lit != nil && n.lit.IsInt64() && n.lit.Int64() >= 0 && n.lit.Int64() <= 8 {
+		arr := StrArr(b)
+		for i := n.lit.Int64() - 1; i >= 0; i-- {
+			arr = ConsArr(StrAt(a, IntLit(i)), arr)
+		}
+		return MkStr(arr, Add(StrLen(b), n))
 	}
 	arr := fx.c.Fresh("cat", SArrI)
 	la, lb := StrLen(a), StrLen(b)
